@@ -102,6 +102,27 @@ def install_work_limit():
     gs.GuessStructure._pcfgsim_limited = True
 
 
+def make_optimizer(t, max_length, res=None):
+    """the shared lookup cache with every size-like tuning parameter of its constructor drawn small: max_length is the one the
+    current tree has; any further integer default (an entry bound, a block size) is a knob of the same kind, inert or absent
+    on the current tree"""
+    import inspect
+    from lib_guesser.omen.optimizer import Optimizer
+    kw = {}
+    try:
+        params = inspect.signature(Optimizer.__init__).parameters
+    except (TypeError, ValueError):
+        params = {}
+    for name, prm in params.items():
+        if name in ("self", "max_length"):
+            continue
+        if isinstance(prm.default, int) and not isinstance(prm.default, bool) and prm.default > 8:
+            kw[name] = t.choice([1, 2, 5, 20, 100])
+            if res is not None:
+                res.stats["optimizer_knob_" + name] += 1
+    return Optimizer(max_length=max_length, **kw)
+
+
 def drain(mc, cap, work=None):
     out = []
     _WORK[0] = work
@@ -200,7 +221,7 @@ def run_c10(t, tier, res):
     # history configuration: one shared optimizer
     _WORK[0] = 600000
     knob = t.draw(7)                      # the shared cache gets its own size
-    opt = Optimizer(max_length=knob)
+    opt = make_optimizer(t, knob, res)
     gens = []       # [level, cracker, collected, finished]
     nops = t.between(4, 10)
     levels = sorted(want)
